@@ -301,7 +301,7 @@ pub(crate) fn c06_rabin_step_hint0() {
     step_check::<0, 76, 76, 8, false>(64, 64, 72, 1, 0, 0, 1);
 }
 
-//@ harness: c06_rabin_small_params_a c06_rabin_small_params_c c06_rabin_small_params_e
+//@ harness: c06_rabin_small_params_a c06_rabin_small_params_c c06_rabin_small_params_e c06_rabin_small_params_f
 //@ prop: C06
 //@ tier: quick
 //@ timeout: 2400
@@ -334,12 +334,14 @@ macro_rules! small_params_instance {
         pub(crate) fn $name() { small_params_check::<$look, $n>($size, $min, $max); }
     };
 }
-//@ instance: c06_rabin_small_params_a c06_rabin_small_params_b c06_rabin_small_params_c c06_rabin_small_params_d c06_rabin_small_params_e
+//@ instance: c06_rabin_small_params_a c06_rabin_small_params_b c06_rabin_small_params_c c06_rabin_small_params_d c06_rabin_small_params_e c06_rabin_small_params_f
 small_params_instance!(c06_rabin_small_params_a, 64, 16, 72, 20, 8);
 small_params_instance!(c06_rabin_small_params_b, 32, 8, 40, 3, 50);
 small_params_instance!(c06_rabin_small_params_c, 64, 64, 72, 20, 8);
 small_params_instance!(c06_rabin_small_params_d, 64, 0, 72, 3, 10);
 small_params_instance!(c06_rabin_small_params_e, 64, 64, 72, 20, 60);
+// f: the tail of the file sits only in the look-ahead buffer and the reader is already at EOF (seed C01-3)
+small_params_instance!(c06_rabin_small_params_f, 64, 64, 72, 5, 0);
 
 fn small_params_check<const UNREAD: usize, const N: usize>(size: usize, min: usize, max: usize) {
     let ok = check_rabin_params(size, min, max);
